@@ -76,11 +76,11 @@ var (
 	}
 	wideQuick = menus{
 		{"0", "*"},
-		{"0", "*", "30", "*/15"},
+		{"0", "*", "*/15"},
 		{"*", "0", "2", "23"},
 		{"*", "1", "*/2", "31"},
 		{"*", "1", "3,10"},
-		{"*", "0", "1-5"},
+		{"*", "1-5"},
 	}
 	windowQuick = menus{
 		{"0"},
@@ -88,7 +88,7 @@ var (
 		{"*", "0", "1", "2", "3", "23"},
 		{"*", "*/2", "2-30/2"},
 		{"*"},
-		{"*", "0", "1-5"},
+		{"*"},
 	}
 	rareSchedules = []string{"0 0 0 30 2 *", "0 0 0 31 2,4,6,9,11 ?", "0 0 0 29 2 *", "0 0 12 29 2 0", "* * * 31 4 *", "0 0 0 29 2 6"}
 )
@@ -155,7 +155,7 @@ type zoneInfo struct {
 	nWin  int
 }
 
-func loadZone(name string) (*zoneInfo, error) {
+func loadZone(name string, crossCheck bool) (*zoneInfo, error) {
 	zi := &zoneInfo{name: name}
 	var loc *time.Location
 	if name == "+05:30" {
@@ -167,7 +167,7 @@ func loadZone(name string) (*zoneInfo, error) {
 			return nil, err
 		}
 	}
-	z, err := cronref.ScanZone(name, loc, eraFrom, eraTo)
+	z, err := cronref.ScanZone(name, loc, eraFrom, eraTo, crossCheck)
 	if err != nil {
 		return nil, err
 	}
@@ -531,7 +531,7 @@ func workerMain() {
 	var curGroups []group
 	var curG, curI int
 	var limit atomic.Int64
-	limit.Store(int64(2 * time.Second))
+	limit.Store(int64(5 * time.Second))
 	evals := 0 // across units: every 2003rd evaluation is self-checked
 	flush := func(r *unitResp, mis map[string]*mismatch) {
 		keys := make([]string, 0, len(mis))
@@ -603,7 +603,7 @@ func workerMain() {
 		}
 		zi := zones[q.Zone]
 		if zi == nil {
-			if zi, err = loadZone(q.Zone); err != nil {
+			if zi, err = loadZone(q.Zone, false); err != nil { // the driver has cross-checked this zone
 				panic(err)
 			}
 			zones[q.Zone] = zi
@@ -770,7 +770,7 @@ func (w *worker) do(q *unitReq) *unitResp {
 
 // pool runs requests on worker processes, restarting after hangs and resuming
 // each unit behind the hang as the group rule says. A hang is believed only
-// after it has been confirmed once per key in a fresh worker with a 6 s limit;
+// after it has been confirmed once per key in a fresh worker with a 15 s limit;
 // an unconfirmed alarm (slow machine) is retried from the same start.
 type pool struct {
 	r           *enumx.Run
@@ -817,7 +817,7 @@ func (pl *pool) run(reqs []unitReq) (done int) {
 						pl.mu.Unlock()
 						if !confirmedHang {
 							c := resp.HungCase.C
-							cq := unitReq{Zone: c.Zone, Spec: c.Spec, Kind: "single", Unix: c.Unix, Nanos: c.Nanos, LimitMs: 6000}
+							cq := unitReq{Zone: c.Zone, Spec: c.Spec, Kind: "single", Unix: c.Unix, Nanos: c.Nanos, LimitMs: 15000}
 							cr := w.do(&cq)
 							if cr.Hung {
 								w.stop()
@@ -873,7 +873,7 @@ func run(r *enumx.Run, replay *enumx.ReplayCase) {
 			panic(err)
 		}
 		w := startWorker()
-		q := unitReq{Zone: c.Zone, Spec: c.Spec, Kind: "single", Unix: c.Unix, Nanos: c.Nanos, LimitMs: 5000}
+		q := unitReq{Zone: c.Zone, Spec: c.Spec, Kind: "single", Unix: c.Unix, Nanos: c.Nanos, LimitMs: 15000}
 		if strings.HasPrefix(c.Spec, "@every ") {
 			q.Kind, q.Spec = "every", strings.TrimPrefix(c.Spec, "@every ")
 		}
@@ -899,12 +899,12 @@ func run(r *enumx.Run, replay *enumx.ReplayCase) {
 	if !subset(wideQuick, wideThorough) || !subset(windowQuick, windowThorough) || !subset(windowThorough, wideThorough) {
 		panic("menu inclusion broken: quick must explore a subset of thorough")
 	}
-	r.Rule("next: each case is one (schedule, zone, start instant) triple: kit's Next(t) against the reference scan of absolute time. Schedules: full product of a term menu per field. Start instants per zone: a regular grid 2005-2030 (step 97d5h43m17.25s) for the wide menu, and for the window menu every 7 minutes from -50h to +4h around every UTC-offset change of the zone in 2005-2024 (alternating whole-second and half-second starts, plus the instant itself and one second before). Also @every durations x starts (closed form) and rarely/never matching schedules for the five-year horizon. A case is non-trivial when the answer is not simply the next second. A call of Next that does not return within 2 s (confirmed once per key with 6 s) is a violation; the remaining starts of that window before the transition (then: of that window) are not tried for that schedule and are counted as skipped.")
+	r.Rule("next: each case is one (schedule, zone, start instant) triple: kit's Next(t) against the reference scan of absolute time. Schedules: full product of a term menu per field. Start instants per zone: a regular grid 2005-2030 (step 97d5h43m17.25s) for the wide menu, and for the window menu every 7 minutes from -50h to +4h around every UTC-offset change of the zone in 2005-2024 (alternating whole-second and half-second starts, plus the instant itself and one second before). Also @every durations x starts (closed form) and rarely/never matching schedules for the five-year horizon. A case is non-trivial when the answer is not simply the next second. A call of Next that does not return within 5 s (confirmed once per key with 15 s) is a violation; the remaining starts of that window before the transition (then: of that window) are not tried for that schedule and are counted as skipped.")
 
 	// zones
 	zis := make([]*zoneInfo, len(zoneNames))
 	errs := make([]error, len(zoneNames))
-	r.Parallel(len(zoneNames), func(i int) { zis[i], errs[i] = loadZone(zoneNames[i]) })
+	r.Parallel(len(zoneNames), func(i int) { zis[i], errs[i] = loadZone(zoneNames[i], true) })
 	fp := sha256.New()
 	zoneFacts := map[string]any{}
 	all15 := true
